@@ -1,6 +1,6 @@
 (** C20 — regular-expression matching agrees with SRFI 115: property theorems only. *)
 From ChibiV Require Import C20.Re C20.Proofs C20.FoldIdem C20.SubsNest.
-From ChibiV Require Import C20.Nfa C20.NfaOrd C20.NfaCount C20.NfaBounded.
+From ChibiV Require Import C20.Nfa C20.NfaOrd C20.NfaSem C20.NfaCount C20.NfaBounded C20.NfaThompson C20.NfaRun C20.NfaMain C20.NfaSpan.
 
 (** the derivative of a core expression denotes the left quotient of its language *)
 Theorem deriv_correct : forall r p c s n, LR (deriv p c r) (Some c) s n <-> LR r p (c :: s) n.
@@ -110,8 +110,62 @@ Proof. exact fold_idem. Qed.
 Print Assumptions fold_idempotent.
 
 (* ------------------------------------------------------------------------------------------ *)
-(** round 3: the NFA engine of regexp.scm inside the model (C20/Nfa.v: [compile_top] mirrors regexp / ->rx,
-    [run] mirrors regexp-run-offsets over regexp-advance! / posse-advance!) *)
+(** round 3: the NFA engine of regexp.scm inside the model (C20/Nfa.v: [compile_top] mirrors regexp / ->rx state by state,
+    [run] mirrors regexp-run-offsets over regexp-advance! / posse-advance!; tied to the running code by comparing the state
+    graphs and the posse after every character, props/C20.py stage "engine") *)
+
+(** MAIN: regexp-matches? as computed by the modelled engine -- Thompson-style graph built by ->rx, simulated by a posse of
+    searchers with match vectors merged by regexp-match>=? -- accepts exactly the strings of the SPEC language.  For every
+    well-formed surface SRE ([wf_x]: bounded repeats have m <= n; a w/nocase inside an all-char-set alternation has one element) *)
+Theorem nfa_accepts_iff_language : forall x s, wf_x x = true ->
+  (nfa_matches x s = true <-> L false (to_sre false x) None s None).
+Proof. exact nfa_accepts_iff_language_all. Qed.
+Print Assumptions nfa_accepts_iff_language.
+
+(** regexp-search by the modelled engine (start searcher injected at every position, early exit) succeeds exactly when some
+    substring, in its context, is in the language *)
+Theorem nfa_search_iff_substring : forall x s, wf_x x = true ->
+  (nfa_search x s = true <-> exists i j, in_lang false (to_sre false x) s i j).
+Proof. exact nfa_search_iff_substring_all. Qed.
+Print Assumptions nfa_search_iff_substring.
+
+(** the two halves.  Thompson correctness of the construction: the graph [compile_top x] has a path from the start state at 0
+    to the accept state at the end of s exactly when s is in the language (anchors as guarded epsilon edges, (= n) (>= n) and
+    bounded repeats through sre-expand-reps, all-char-set alternations as one state, w/nocase, w/nocapture) *)
+Theorem nfa_graph_accepts_iff_language : forall x s, wf_x x = true ->
+  (accepts_path (compile_top x) s <-> L false (to_sre false x) None s None).
+Proof. exact compile_top_path_iff_language. Qed.
+Print Assumptions nfa_graph_accepts_iff_language.
+
+(** ... and the simulation finds an accept exactly when the graph has an accepting path: neither the merging of searchers that
+    meet in a state, nor the "seen" set of the epsilon closure, nor the early exit loses a reachable state (any state table) *)
+Theorem nfa_simulation_search_iff_path : forall N s, run_nfa true N s = true <-> finds_path N s.
+Proof. exact run_search_iff_path. Qed.
+Print Assumptions nfa_simulation_search_iff_path.
+
+Theorem nfa_simulation_matches_iff_path : forall x s,
+  run_nfa false (compile_top x) s = true <-> accepts_path (compile_top x) s.
+Proof. exact run_matches_iff_path. Qed.
+Print Assumptions nfa_simulation_matches_iff_path.
+
+(** termination: the epsilon closure (posse-advance!) never runs out of the fuel 2 * states + 2, so the whole run is total *)
+Theorem nfa_closure_fuel_suffices : forall N p n i atend whole sr new acc,
+  adv (adv_fuel N) N p n i atend whole [sr] new [] acc <> None.
+Proof. exact adv_fuel_suffices. Qed.
+Print Assumptions nfa_closure_fuel_suffices.
+
+Theorem nfa_run_total : forall search N s, run search N s <> None.
+Proof. exact run_total. Qed.
+Print Assumptions nfa_run_total.
+
+(** the posse never holds two searchers for one state, only character states, hence at most as many searchers as states *)
+Theorem nfa_posse_size_bounded : forall search N s s1 acc,
+  loop search N s (length s) 0 [] None = Some (s1, acc) ->
+  NoDup (keys s1) /\
+  (forall q, In q (keys s1) -> exists st ci cs, nth_error (n_tb N) q = Some st /\ s_kind st = KChar ci cs) /\
+  length s1 <= length (n_tb N).
+Proof. exact posse_keys_bounded. Qed.
+Print Assumptions nfa_posse_size_bounded.
 
 (** rx-num-save-indexes of the compiled regexp is two slots per submatch the SPEC syntax counts, plus the whole match:
     the match vector has exactly one pair per [$] that [check_spans] expects (all SREs) *)
@@ -132,28 +186,23 @@ Print Assumptions nfa_trace_ends_in_result.
 (** _partial: the fragment is the finite domain [small_xsres] x [small_strings] of C20/NfaBounded.v (870 SREs: every SRE
     of depth <= 1 over 15 atoms, 15 unary and 2 binary forms, and the family "loop around a submatch around an operator";
     44 strings: all of length <= 3 over {a, b, newline} and 4 with upper-case letters), decided by computation.
-    Full statements: for all x s, with no domain hypothesis. *)
-Theorem nfa_search_iff_substring_partial : forall x s, In x small_xsres -> In s small_strings ->
-  (nfa_search x s = true <-> exists i j, in_lang false (to_sre false x) s i j).
-Proof. exact nfa_search_iff_substring_small. Qed.
-Print Assumptions nfa_search_iff_substring_partial.
-
-Theorem nfa_search_span_leftmost_longest_partial : forall x s, In x small_xsres -> In s small_strings ->
-  has_nongreedy (to_sre false x) = false ->
-  match span0 (nfa_spans true x s) with
-  | Some (i, j) => in_lang false (to_sre false x) s i j /\
-                   forall i' j', in_lang false (to_sre false x) s i' j' -> (i < i')%nat \/ (i = i' /\ (j' <= j)%nat)
-  | None => forall i j, ~ in_lang false (to_sre false x) s i j
-  end.
-Proof. exact nfa_search_span_leftmost_longest_small. Qed.
-Print Assumptions nfa_search_span_leftmost_longest_partial.
-
+    Full statement: for all x s (with wf_x), no domain hypothesis: every set of spans the simulation reports passes the exact
+    validator [check_spans], i.e. (submatch_span_check_sound) each submatch span delimits text in the language of its own body
+    and lies inside the nearest enclosing non-repeated submatch. *)
 Theorem nfa_submatch_spans_valid_partial : forall x s b spans, In x small_xsres -> In s small_strings ->
   nfa_spans b x s = Some spans -> check_spans (to_sre false x) s spans = true.
 Proof. exact nfa_submatch_spans_valid_small. Qed.
 Print Assumptions nfa_submatch_spans_valid_partial.
 
-Theorem nfa_accepts_iff_language_small_domain : forall x s, In x small_xsres -> In s small_strings ->
-  (nfa_matches x s = true <-> L false (to_sre false x) None s None).
-Proof. exact nfa_accepts_iff_language_small. Qed.
-Print Assumptions nfa_accepts_iff_language_small_domain.
+(** the span regexp-search reports (slots 0 and 1 of the accept's vector after the posse simulation with merging by
+    regexp-match>=? and the early exit) is the POSIX leftmost-longest one: in the language, no match starts further left, none
+    with the same start is longer; no span only when nothing matches.  For every wf SRE whose whole-match end slot is not
+    registered non-greedy ([ngs x = false]: the SRE does not END in a non-greedy operator; inner non-greedy operators are allowed) *)
+Theorem nfa_search_span_leftmost_longest : forall x s, wf_x x = true -> ngs x = false ->
+  match NfaSpan.span0 (nfa_spans true x s) with
+  | Some (i, j) => in_lang false (to_sre false x) s i j /\
+                   forall i' j', in_lang false (to_sre false x) s i' j' -> (i < i')%nat \/ (i = i' /\ (j' <= j)%nat)
+  | None => forall i j, ~ in_lang false (to_sre false x) s i j
+  end.
+Proof. exact NfaSpan.nfa_search_span_leftmost_longest. Qed.
+Print Assumptions nfa_search_span_leftmost_longest.
